@@ -388,7 +388,8 @@ GENOMIC_OPS_I = [(2, "ivals"), (2, "mask"), (3, "pileup"), (2, "pileup_sum"), (2
 GENOMIC_OPS_B = [(3, "track"), (2, "track_sum"), (2, "track_hist"), (2, "track_at_windows"),
                  (2, "track_at_stream_windows"), (2, "track_mean_cols"), (1, "track_mean_rows"), (1, "track_arith"),
                  (1, "track_gt"), (1, "from_track"), (1, "multi_track_tuple"), (2, "track_sum_rows"), (1, "track_max_rows"),
-                 (3, "track_sum_rows")]      # (appended, not re-weighted: stored tapes keep their meaning)
+                 (3, "track_sum_rows"),      # (appended, not re-weighted: stored tapes keep their meaning)
+                 (2, "multi_mean_sum_tuple"), (2, "multi_hist_mean_dict")]   # reductions of different kinds in one compute
 
 
 # constant on either side of commutative and non-commutative operators, explicit ufunc calls, unary minus
@@ -436,7 +437,7 @@ def build_genomic(ctx, tape, cap, source):
     if op in ("pileup_hist", "multi_reduce_tuple", "multi_reduce_dict"):
         params["bins"] = 1 + tape.draw(4, "h.nb")
         params["range"] = [0, 1 + tape.draw(5, "h.hi")]
-    if op in ("track_hist", "multi_track_tuple"):
+    if op in ("track_hist", "multi_track_tuple", "multi_hist_mean_dict"):
         params["bins"] = [0, 0.5, 1, 2, 5][: 2 + tape.draw(4, "h.nb")]
     if op in ("max_at_self", "filter_by_max"):
         params["t"] = tape.draw(3, "g.t")
@@ -460,7 +461,7 @@ def build_genomic(ctx, tape, cap, source):
         sec_stranded = tape.boolean("w.stranded", 1, 3)
         sec_rows = gen_grouped_rows(tape, 6, names, "w", allow_empty_groups=True, sizes=sizes)
         sec_rows = [(c, s, min(e, chrom_sizes[c])) for c, s, e in sec_rows]
-    elif op == "track_mean_cols":
+    elif op in ("track_mean_cols", "multi_mean_sum_tuple", "multi_hist_mean_dict"):
         sec_stranded = tape.boolean("w.stranded", 1, 3)
         w = 1 + tape.draw(min(sizes), "w.width")
         unequal = w >= 2 and tape.boolean("w.unequal", 1, 2)     # rows of different lengths: column counts differ
@@ -607,6 +608,14 @@ def build_genomic(ctx, tape, cap, source):
             return tdata(fin((tr > params["t"]).get_data()), True)
         if op == "from_track":
             return idata(fin(b.GenomicIntervals.from_track(tr > params["t"])))
+        if op in ("multi_mean_sum_tuple", "multi_hist_mean_dict"):
+            w = genome.get_intervals(secondary(), stranded=sec_stranded)
+            m_node = tr[w].mean(axis=0)
+            if op == "multi_mean_sum_tuple":
+                m, s_ = tuple(fin((m_node, tr.sum())))
+                return {"mean": S.dense(m), "sum": plain(s_)}
+            r = fin({"hist": np.histogram(tr, bins=params["bins"]), "mean": m_node})
+            return {"hist": S.dense(r["hist"]), "mean": S.dense(r["mean"])}
         if op == "multi_track_tuple":
             s, h = tuple(fin((tr.sum(), np.histogram(tr, bins=params["bins"]))))
             return {"sum": plain(s), "hist": S.dense(h)}
